@@ -243,7 +243,7 @@ func (g *ResGen) text() string {
 	return w
 }
 
-var tzs = []string{"Z", "UTC", "+05:30", "-11:00"}
+var tzs = []string{"Z", "UTC", "+05:30", "-11:00", "-03:30", "+05:45", "-09:30"}
 
 // TZLoc returns the location for "Z", "UTC" or a "+hh:mm" offset.
 func TZLoc(tz string) *time.Location { return tzLoc(tz) }
